@@ -134,6 +134,8 @@ struct IProp {
     virtual std::string republish(ovm::ResourceManager &, const std::string &) { return "unsupported"; }
     // the property of this name/type/kind in another mesh: -1 not found, 0 different values, 1 equal
     virtual int equal_in(ovm::ResourceManager &) const { return -2; }
+    // def() of the property of this name/type/kind in another mesh ("?" if there is none)
+    virtual std::string def_in(ovm::ResourceManager &) const { return "?"; }
 };
 
 template <class T, class ET>
@@ -163,6 +165,7 @@ struct PropT : IProp {
         try { p.set_name(nn); rm.set_shared(p, true); rm.set_persistent(p, true); } catch (const std::exception &e) { return std::string("threw ") + e.what(); }
         name = nn; flavour = 2; republished = true; return "";
     }
+    std::string def_in(ovm::ResourceManager &other) const override { auto o = other.template get_property<T, ET>(name); return o ? Val<T>::repr(o->def()) : std::string("?"); }
     int equal_in(ovm::ResourceManager &other) const override {
         auto o = other.template get_property<T, ET>(name);
         if (!o) return -1;
